@@ -851,7 +851,9 @@ func c12RandomGen(rng *rand.Rand, i int) (c12Gen, string) {
 // boundary families
 func c12Boundary(rng *rand.Rand) []c12Input {
 	var out []c12Input
-	add := func(fam string, n c12Net, runs []c12Run) { out = append(out, c12Input{Net: n, Runs: runs, Family: fam}) }
+	add := func(fam string, n c12Net, runs []c12Run) {
+		out = append(out, c12Input{Net: n, Runs: runs, Family: fam})
+	}
 	std := func(n c12Net, vectors int) []c12Run { return c12StandardRuns(rng, n, c12Analyse(n).d, vectors) }
 	for rep := 0; rep < 3; rep++ {
 		// no hidden neuron: depth 1, the quick path of MaxActivationDepth
@@ -942,6 +944,7 @@ func runC12(r *Run) error {
 		"every activation type; per net up to 3 input vectors through Network.ForwardSteps/RecursiveSteps and the fast solver's ForwardSteps/RecursiveSteps/Relax with k >= depth; " +
 		"boundary families (no hidden, deep chain, no bias, many bias, uneven outputs) and nets outside the quantifier (correspondence only); " +
 		"non-trivial = feed-forward with depth >= 2; distinct by network"
+	depthQueryHistories(r, "C12")
 	r.Note("harness built with the default GOAMD64 (v1): the Go compiler emits no fused multiply-add on amd64")
 	var inputs []c12Input
 	inputs = append(inputs, c12Boundary(r.Rng)...)
